@@ -118,7 +118,7 @@ def run(ctx: Ctx) -> None:
                 acc.add(g)
         k = 0
         names = list(H.LIMIT_CONFIGS)
-        for src, label, data in H.request_corpus(rng, ctx.pick(25, 400), ctx.pick(2, 8), ctx.pick(6, 20)):
+        for src, label, data in H.request_corpus(rng, ctx.pick(45, 250), ctx.pick(2, 8), ctx.pick(6, 20)):
             k += 1
             lim = H.LIMIT_CONFIGS[names[k % len(names)]]
             g = H.Group("request", data, lim, src=src, label=label)
@@ -130,7 +130,7 @@ def run(ctx: Ctx) -> None:
                 g.conn(dh, G.random_cuts(rng, len(data), 1))
             acc.add(g)
         k = 0
-        for src, label, data, opts in H.response_corpus(rng, ctx.pick(20, 300), ctx.pick(2, 8), ctx.pick(6, 20)):
+        for src, label, data, opts in H.response_corpus(rng, ctx.pick(35, 200), ctx.pick(2, 8), ctx.pick(6, 20)):
             k += 1
             lim = H.LIMIT_CONFIGS[names[k % len(names)]]
             g = H.Group("response", data, lim, src=src, label=label, **opts)
@@ -140,7 +140,7 @@ def run(ctx: Ctx) -> None:
                 g.client([])
                 g.client(G.random_cuts(rng, len(data), 2))
             acc.add(g)
-        for i in range(ctx.pick(400, 6000)):
+        for i in range(ctx.pick(800, 5000)):
             n = rng.choice([1, 3, 8, 20, 60, 200])
             s = G.raw_random(rng, n)
             mode = "request" if i % 2 == 0 else "response"
